@@ -91,7 +91,15 @@ def sparse_cfg(rng, gapless):
             modes = ["auto", "next_and_back", "table"] + ([] if "range" in fs else ["table_inline"]) + (["range"] if gapless else [])
             p["mode"] = rng.choice(modes)
         feats.append((f, p))
-    return {"feats": feats, "split": rng.choice(["one", "each"])}
+    # how the features are distributed over attributes and in which order they are written must not matter (C10)
+    sp = rng.choice(["one", "each", "rev", "onerev", "halves"])
+    if sp in ("rev", "onerev"):
+        feats = feats[::-1]
+        sp = "each" if sp == "rev" else "one"
+    elif sp == "halves":
+        n = len(feats)
+        sp = [list(range(n // 2, n)), list(range(0, n // 2))] if n >= 2 else "one"
+    return {"feats": feats, "split": sp}
 
 
 # ------------------------------------------------------------------------------------------------
@@ -704,7 +712,9 @@ class Plan:
                     m = want.get(f)
                     feats.append((f, {"mode": MODE.get(m, m)} if m and m != "auto" else {}))
                 lab = "+".join(f + (":" + want[f] if want.get(f, "auto") != "auto" else "") for f, _ in feats)
-                cs = self.new_case(r, vs, {"feats": feats, "split": "one"}, script, f"pairwise:{lab}")
+                # (order and grouping of the attributes rotate: one attribute, one per feature, both also reversed)
+                k = len(cases) % 4
+                cs = self.new_case(r, vs, {"feats": feats if k < 2 else feats[::-1], "split": "one" if k % 2 == 0 else "each"}, script, f"pairwise:{lab}")
                 cs["pow2"] = True
                 cases.append(cs)
             cases[0]["pow2"] = True
